@@ -231,10 +231,14 @@ class Machine:
     def _color_mz_light(self) -> None:
         light = self._get_named_light()
         if light is not None and self._zone_check(light):
-            start_index = self._reg.first_zone
+            # Division and interpolating loops produce floats; round once
+            # here, so that both ends of "zone 2.5" are the same zone.
+            start_index = round(self._reg.first_zone)
             end_index = self._reg.last_zone
             if end_index is None:
                 end_index = start_index
+            else:
+                end_index = round(end_index)
             light.set_zone_colors(
                 start_index, end_index + 1,
                 self._as_raw_color(self._reg.get_color()),
